@@ -77,7 +77,7 @@ func c04TokVal(t string) (v interface{}, present bool) {
 }
 
 // string alphabet: separator-like bytes of all encoders, the NULL markers' letters, plain letters
-var c04Frag = []string{"x", "y", "z", "|", "|", "\\", "\x1f", "\x1f", ",", "\x00", "N", "\x00NULL", "\\N", "", "s:", "1", ":"}
+var c04Frag = []string{"x", "y", "z", "<nil>", "|", "|", "\\", "\x1f", "\x1f", ",", "\x00", "N", "\x00NULL", "\\N", "", "s:", "1", ":"}
 
 func c04Str(rng *rand.Rand) string {
 	n := rng.Intn(4)
@@ -185,14 +185,20 @@ func c04TuplePool(rng *rand.Rand, arity, size int) [][]string {
 func (c04) Gen(rng *rand.Rand, tier string, idx int) Case {
 	var c Case
 	arity := []int{0, 1, 1, 2, 2, 2, 3}[rng.Intn(7)]
-	mode := []string{"enc", "fcnt", "agg", "ses", "cnt", "glb", "agg"}[idx%7]
+	mode := []string{"enc", "fcnt", "agg", "ses", "cnt", "glb", "dcnt"}[idx%7]
 	if mode == "fcnt" {
 		arity = 2 + rng.Intn(2)
+	}
+	if mode == "dcnt" {
+		arity = 1 + rng.Intn(3)
 	}
 	c.Cfg = append(c.Cfg, []string{"mode", mode}, []string{"arity", strconv.Itoa(arity)})
 	pool := c04TuplePool(rng, arity, 3+rng.Intn(3))
 	if mode == "fcnt" {
 		return c04GenFnKeys(rng, c, arity, pool)
+	}
+	if mode == "dcnt" {
+		return c04GenDotted(rng, c, arity, pool)
 	}
 	c.Stat = append(c.Stat, "mode-"+mode, fmt.Sprintf("arity-%d", arity))
 	switch mode {
@@ -302,6 +308,206 @@ func c04GenFnKeys(rng *rand.Rand, c Case, arity int, pool [][]string) Case {
 	c.Ops = append(c.Ops, []string{"results"})
 	c.Stat = append(c.Stat, "mode-fcnt", fmt.Sprintf("arity-%d", arity))
 	return c
+}
+
+// ---- dotted keys: GROUP BY n.g0 (nested map) / m.g0 (column of a LEFT JOINed table), bare or under a scalar function ----
+// A dotted GROUP BY column gets no window key (existing tests pin that; C09's recorded finding): CountingWindow(N) cuts the
+// stream into chunks of N rows whatever their keys, and every chunk is one batch that GROUP BY partitions by tuple. The
+// result lines come per batch (`b` marker); a leaf that is present with NULL and one that is missing (no table row, no
+// column, no nested map) are both NULL to the property.
+
+func c04DotExpr(style, fn string, i int) string {
+	col := fmt.Sprintf("%s.g%d", map[string]string{"nest": "n", "join": "m"}[style], i)
+	if fn == "-" {
+		return col
+	}
+	return fn + "(" + col + ")"
+}
+
+// c04DotInner: the nested map / table row of one raw tuple; with nothing present every other row has no carrier at all
+func c04DotInner(id int, toks []string) (map[string]interface{}, bool) {
+	m := map[string]interface{}{}
+	for i, t := range toks {
+		if v, present := c04TokVal(t); present {
+			m[fmt.Sprintf("g%d", i)] = v
+		}
+	}
+	return m, len(m) > 0 || id%2 != 0
+}
+
+func c04GenDotted(rng *rand.Rand, c Case, arity int, pool [][]string) Case {
+	style := []string{"nest", "join"}[rng.Intn(2)]
+	fns := make([]string, arity)
+	for i := 0; i < arity; i++ {
+		fns[i] = "-"
+		kind := ""
+		for _, t := range pool {
+			if len(t[i]) > 1 {
+				kind = t[i][:1]
+			}
+		}
+		if rng.Intn(3) == 0 {
+			switch kind {
+			case "s":
+				fns[i] = []string{"upper", "lower"}[rng.Intn(2)]
+			case "i", "x":
+				fns[i] = "abs"
+			}
+		}
+	}
+	n := []int{1, 2, 3, 4}[rng.Intn(4)]
+	c.Cfg = append(c.Cfg, []string{"n", strconv.Itoa(n)}, []string{"style", style}, append([]string{"fns"}, fns...))
+	nrows := 4 + rng.Intn(14)
+	for i := 0; i < nrows; i++ {
+		t := append([]string(nil), pool[rng.Intn(len(pool))]...)
+		// present-with-NULL next to missing, in any bare column; nothing at all (no table row / no nested map) when every
+		// column is bare. A function key keeps an argument it can work on: what a scalar function makes of NULL is not
+		// a question of partitioning (the key evaluator and the SELECT evaluator disagree on lower(NULL): C06's finding)
+		if j := rng.Intn(arity); rng.Intn(3) == 0 && fns[j] == "-" {
+			t[j] = []string{"n", "m"}[rng.Intn(2)]
+		}
+		bare := true
+		for j := range t {
+			if fns[j] != "-" {
+				bare = false
+				if t[j] == "n" || t[j] == "m" || strings.HasPrefix(t[j], "b:") {
+					if fns[j] == "abs" {
+						t[j] = c04ValTok([]int{3, -3, 12}[rng.Intn(3)], true)
+					} else {
+						t[j] = c04ValTok([]string{"Ab", "aB", "|x"}[rng.Intn(3)], true)
+					}
+				}
+			}
+		}
+		if bare && rng.Intn(8) == 0 {
+			for j := range t {
+				t[j] = "m"
+			}
+		}
+		c.Cfg = append(c.Cfg, append([]string{"raw", strconv.Itoa(i + 1)}, t...))
+		// the function value of a key: the engine's own evaluation of the key text on the row as the window sees it (the
+		// nested map, or the stream row with the joined table row under the alias)
+		row := map[string]interface{}{"id": i + 1}
+		if m, carrier := c04DotInner(i+1, t); carrier {
+			row[map[string]string{"nest": "n", "join": "m"}[style]] = m
+		}
+		fv := make([]string, arity)
+		for j := range fv {
+			if fns[j] == "-" {
+				fv[j] = t[j]
+				continue
+			}
+			v, err := functions.GetExprBridge().EvaluateExpression(c04DotExpr(style, fns[j], j), row)
+			if err != nil {
+				fv[j] = "m"
+				c.Stat = append(c.Stat, "fn-key-fails")
+			} else {
+				fv[j] = c04ValTok(v, true)
+			}
+		}
+		c.Ops = append(c.Ops, append([]string{"row", strconv.Itoa(i + 1)}, fv...))
+	}
+	c.Ops = append(c.Ops, []string{"results"})
+	c.Stat = append(c.Stat, "mode-dcnt", "style-"+style, fmt.Sprintf("arity-%d", arity))
+	for _, f := range fns {
+		if f != "-" {
+			c.Stat = append(c.Stat, "dotted-function-key")
+			break
+		}
+	}
+	return c
+}
+
+func c04SQLDotted(style string, arity, n int, fns []string, raws [][]string) [][]string {
+	names := make([]string, arity)
+	var sel, gb []string
+	for i := 0; i < arity; i++ {
+		names[i] = fmt.Sprintf("k%d", i)
+		e := c04DotExpr(style, fns[i], i)
+		sel = append(sel, e+" AS "+names[i])
+		gb = append(gb, e)
+	}
+	sel = append(sel, "count(*) AS c", "collect(id) AS ids")
+	from := "stream"
+	if style == "join" {
+		from = "stream LEFT JOIN meta m ON id = m.rid"
+	}
+	sql := "SELECT " + strings.Join(sel, ", ") + " FROM " + from + " GROUP BY " + strings.Join(gb, ", ") + fmt.Sprintf(", CountingWindow(%d)", n)
+	s := streamsql.New(streamsql.WithDiscardLog())
+	defer s.Stop()
+	if err := s.Execute(sql); err != nil {
+		return [][]string{{"exec-error", hx(err.Error())}}
+	}
+	if style == "join" {
+		if _, err := s.RegisterTable("meta", nil); err != nil {
+			return [][]string{{"register-error", hx(err.Error())}}
+		}
+	}
+	ch := make(chan []map[string]interface{}, 4096)
+	s.AddSyncSink(func(r []map[string]interface{}) {
+		cp := make([]map[string]interface{}, len(r))
+		copy(cp, r)
+		ch <- cp
+	})
+	send := func(id int, toks []string) {
+		m, carrier := c04DotInner(id, toks)
+		row := map[string]interface{}{"id": id}
+		switch style {
+		case "nest":
+			if carrier {
+				row["n"] = m
+			}
+		case "join":
+			if carrier {
+				m["rid"] = id
+				if err := s.UpsertTable("meta", m); err != nil {
+					panic(err)
+				}
+			}
+		}
+		s.Emit(row)
+	}
+	for _, t := range raws {
+		id, _ := strconv.Atoi(t[0])
+		send(id, t[1:])
+	}
+	for i := 1; i <= n; i++ {
+		toks := make([]string, arity)
+		for j := range toks {
+			toks[j] = c04ValTok("~sentinel~", true)
+			if fns[j] == "abs" {
+				toks[j] = c04ValTok(987654321, true)
+			}
+		}
+		send(-i, toks)
+	}
+	var out [][]string
+	deadline := time.After(c04BarrierDeadline())
+	for {
+		select {
+		case b := <-ch:
+			done := false
+			var ls [][]string
+			for _, r := range b {
+				if c04HasSentinel(r) {
+					done = true
+				}
+				if !c04HasNegativeID(r) {
+					ls = append(ls, c04ResultLine(r, names))
+				}
+			}
+			if len(ls) > 0 {
+				out = append(out, []string{"b"})
+				out = append(out, c04SortLines(ls)...)
+			}
+			if done {
+				return out
+			}
+		case <-deadline:
+			c04BarrierFailed = true
+			return append(out, []string{"sentinel-lost"})
+		}
+	}
 }
 
 func c04SQLFn(arity, n int, fns []string, raws [][]string) [][]string {
@@ -645,6 +851,18 @@ func (c04) Exec(c Case) [][][]string {
 				out = append(out, c04SortLines(ls))
 			case "ses":
 				out = append(out, c04Session(arity, rows))
+			case "dcnt":
+				var fns []string
+				var raws [][]string
+				for _, l := range c.Cfg {
+					switch l[0] {
+					case "fns":
+						fns = l[1:]
+					case "raw":
+						raws = append(raws, l[1:])
+					}
+				}
+				out = append(out, c04SQLDotted(c04CfgVal(c, "style", "nest"), arity, n, fns, raws))
 			case "fcnt":
 				var fns []string
 				var raws [][]string
